@@ -18,6 +18,8 @@ def lift(ty, var):
     v = '(*%s)' % var if ref else var
     if t in ('Decimal', 'Self'):
         return v, 'dec'
+    if t == 'ArchivedDecimal':
+        return 'adec(%s)' % v, 'dec'
     if t in INTS:
         return 'dec_of(%s as int)' % v, 'int'
     raise rsx.AnchorLost('cannot lift operand type %r' % ty)
